@@ -305,7 +305,10 @@ def run_shards(pid, tier, seed, nshards, timeout_s, extra_args=()):
     procs = []
     for i in range(nshards):
         out = os.path.join(WORK_DIR, f"{pid}-{tier}-{seed}-{i}of{nshards}-{os.getpid()}.json")
-        cmd = [sys.executable, "-B", script, pid, "--tier", tier, "--shard", f"{i}/{nshards}",
+        # every fourth shard runs under `python -O` (assert statements compiled away, __debug__ False): a library whose behaviour
+        # hangs on an assert's side effect differs there.  (The harness's own asserts are model self-tests only.)
+        opt = ["-O"] if i % 4 == 3 or (1 < nshards < 4 and i == nshards - 1) else []
+        cmd = [sys.executable, "-B", *opt, script, pid, "--tier", tier, "--shard", f"{i}/{nshards}",
                "--shard-out", out, *extra_args]
         env = dict(os.environ, VERIF_SEED=str(seed), PYTHONDONTWRITEBYTECODE="1")
         # process-level configuration no property may depend on, varied over the shards and fixed by (seed, shard) so that a replay
